@@ -3,7 +3,10 @@
 # 1. confirms in a fresh scratch worktree that the seeded change compiles, passes the baseline
 #    tests, and that its demonstration fails with it and passes without it;
 # 2. stores it under /verif/seeded/<seed-name>/;
-# 3. applies it to /repo, runs the given checks (default: the property's), restores /repo.
+# 3. runs the given checks (default: the property's) against the patched tree: by default a
+#    scratch worktree (VERIF_REPO/VERIF_EVIDENCE, so /repo and /verif/evidence stay untouched
+#    and several evaluations can run side by side); with SEED_EVAL_INPLACE=1 it applies the
+#    patch to /repo itself, runs the checks, and restores /repo.
 export GOFLAGS=-mod=mod GOPROXY=off GOSUMDB=off GOTOOLCHAIN=local
 prop=$1; wt=$2; name=$3; shift 3; checks=${*:-$prop}
 out=/verif/seeded/$name; mkdir -p $out
@@ -24,17 +27,27 @@ with=$(cd $sc && timeout 300 go test -vet=off -count=1 -run Demo $pk 2>&1 | grep
 withfail=$(cd $sc && timeout 300 go test -vet=off -count=1 -run Demo $pk 2>&1 | grep -c "^FAIL\|panic:")
 ( cd $sc && git apply -R $out/patch.diff )
 without=$(cd $sc && timeout 300 go test -vet=off -count=1 -run Demo $pk 2>&1 | grep -c "^FAIL\|panic:")
-git -C /repo worktree remove --force $sc
+[ -n "$SEED_EVAL_INPLACE" ] && git -C /repo worktree remove --force $sc
 echo "seed $name: build=$build baseline_ok_pkgs=$base baseline_failures=$basefail demo_with_change_failures=$withfail demo_without_change_failures=$without"
 # run the checks against it
 cd /verif
-git -C /repo apply $out/patch.diff || { echo "patch does not apply to /repo"; exit 2; }
 declare -A rc
-for c in $checks; do
-  s=$(date +%s); ./check $c --tier quick > $out/check_$c.log 2>&1; rc[$c]=$?; e=$(date +%s)
-  echo "  check $c on seeded tree: exit=${rc[$c]} ($((e-s))s) $(grep -c '^VIOLATION' $out/check_$c.log) violation lines"
-done
-git -C /repo checkout -- . ; git -C /repo status --short | head -3
+if [ -n "$SEED_EVAL_INPLACE" ]; then
+  git -C /repo apply $out/patch.diff || { echo "patch does not apply to /repo"; exit 2; }
+  for c in $checks; do
+    s=$(date +%s); ./check $c --tier quick > $out/check_$c.log 2>&1; rc[$c]=$?; e=$(date +%s)
+    echo "  check $c on seeded tree: exit=${rc[$c]} ($((e-s))s) $(grep -c '^VIOLATION' $out/check_$c.log) violation lines"
+  done
+  git -C /repo checkout -- . ; git -C /repo status --short | head -3
+else
+  ( cd $sc && git checkout -q -- . && git clean -fdq && git apply $out/patch.diff ) || { echo "patch does not apply"; exit 2; }
+  ev=/tmp/seedev-$name; rm -rf $ev; mkdir -p $ev
+  for c in $checks; do
+    s=$(date +%s); VERIF_REPO=$sc VERIF_EVIDENCE=$ev ./check $c --tier quick > $out/check_$c.log 2>&1; rc[$c]=$?; e=$(date +%s)
+    echo "  check $c on seeded tree: exit=${rc[$c]} ($((e-s))s) $(grep -c '^VIOLATION' $out/check_$c.log) violation lines"
+  done
+  git -C /repo worktree remove --force $sc; rm -rf $ev
+fi
 python3 - "$prop" "$name" "$base" "$basefail" "$withfail" "$without" "$build" "$checks" <<PY
 import json,sys,os
 prop,name,base,basefail,withfail,without,build,checks=sys.argv[1:9]
@@ -45,7 +58,7 @@ for c in checks.split():
     log=open(f"{out}/check_{c}.log").read()
     results[c]={"violation_lines":log.count("\nVIOLATION")+ (1 if log.startswith("VIOLATION") else 0),"last_line":log.strip().splitlines()[-1] if log.strip() else ""}
 meta={"breaks_property":prop,"what_it_needs_to_manifest":readme,"confirmed":{"builds":build=="ok","baseline_packages_ok":int(base),"baseline_failures":int(basefail),"demo_fails_with_change":int(withfail)>0,"demo_passes_without_change":int(without)==0},
- "what_was_run":["go build ./...","go test -vet=off -count=1 ./ipfix/... ./netflow/... ./sflow/... ./packet/... ./reader/... ./mirror/... ./producer/... ./stress/... (with the change)","demonstration test with the change (must fail) and after git apply -R (must pass)","git -C /repo apply patch.diff; ./check <id> --tier quick; git -C /repo checkout -- ."],
+ "what_was_run":["go build ./...","go test -vet=off -count=1 ./ipfix/... ./netflow/... ./sflow/... ./packet/... ./reader/... ./mirror/... ./producer/... ./stress/... (with the change)","demonstration test with the change (must fail) and after git apply -R (must pass)","./check <id> --tier quick against the tree with patch.diff applied (a scratch worktree of /repo via VERIF_REPO, or /repo itself: git -C /repo apply patch.diff; ./check <id>; git -C /repo checkout -- .)"],
  "checks_run_against_it":results}
 json.dump(meta,open(out+"/meta.json","w"),indent=1)
 PY
